@@ -267,6 +267,14 @@ func (v *VMValue) UnmarshalJSON(input []byte) error {
 		if err == nil {
 			if val, ok := builtinValues[v1.Value.Name]; ok {
 				v.Value = val.Value
+			} else {
+				// unknown (outdated or host-specific) native function: keep the name so that the value
+				// still prints, compares and re-serialises, and make calling it a script error, not a crash
+				name := v1.Value.Name
+				v.Value = &NativeFunctionData{Name: name, NativeFunc: func(ctx *Context, this *VMValue, params []*VMValue) *VMValue {
+					ctx.Error = errors.New("原生函数不可用: " + name)
+					return nil
+				}}
 			}
 			return nil
 		}
